@@ -49,6 +49,8 @@ def RunSpec.ofCase (c : Case) : RunSpec := Id.run do
     | "bolneeded", v :: _ => r := { r with cfg := { r.cfg with bolNeeded := v == "1" } }
     | "haslineno", v :: _ => r := { r with cfg := { r.cfg with hasLineno := v == "1" } }
     | "reentrant", v :: _ => r := { r with cfg := { r.cfg with reentrant := v == "1" } }
+    | "logreads", v :: _ => r := { r with cfg := { r.cfg with logReads := v == "1" } }
+    | "interactive", v :: _ => r := { r with cfg := { r.cfg with interactive := v == "1" } }
     | "eofscs", ws => r := { r with cfg := { r.cfg with eofScs := ws.filterMap String.toNat? } }
     | "maxevents", v :: _ => r := { r with maxEvents := v.toNat?.getD 200000 }
     | _, _ => pure ()
@@ -65,7 +67,8 @@ def cmdTrace (c : Case) (useSpec : Bool) : IO UInt32 := do
   let infos := c.ruleInfos
   let M := if useSpec then specMatcher c.ruleSet infos else tableMatcher c.tables infos
   let s0 : AState := { srcs := rs.srcs, wraps := rs.wraps, acts := rs.acts, eofDefault := rs.eofDefault, eacts := rs.eacts }
-  let s := runMain M { rs.cfg with numRules := c.tables.numRules } rs.maxEvents s0 rs.main
+  let s := runMain M { rs.cfg with numRules := c.tables.numRules, srcTotal := (rs.srcs.getD 0 []).length }
+    rs.maxEvents s0 rs.main
   let out := if s.out.size > rs.maxEvents then s.out.extract 0 rs.maxEvents |>.push "cap" else s.out
   let stdout ← IO.getStdout
   for l in out do stdout.putStrLn l
